@@ -4,11 +4,18 @@ From Coq Require Import String.
 From Coq Require Import List NArith.
 From Coq.Strings Require Import Byte.
 From Borsh Require Import Bytes Result Ty Ser De Entry Schema SchemaFns SchemaSpec ArrayGuard.
+From Borsh Require Import Discr Item DeriveCheck Derive.
 Require Import ExtrOcamlBasic.
 Extraction Language OCaml.
+(* stable names for the byte conversions: extraction renames [Byte.of_N]/[Byte.to_N] as soon as
+   [Z.of_N]/[Z.to_N] are extracted too *)
+Definition byte_of_N := Byte.of_N.
+Definition byte_to_N := Byte.to_N.
 Extraction "model.ml"
-  N.add N.mul N.div_eucl N.compare Byte.of_N Byte.to_N
+  N.add N.mul N.div_eucl N.compare byte_of_N byte_to_N
   enc ser dec_slice logical has_ty wf mem_zst default_of cmp_val
   slice_reader try_from_slice try_from_reader object_length
   max_size max_size_at validate is_zero_size max_unbounded
-  ArrayGuard.deserialize.
+  ArrayGuard.deserialize
+  check violations derive_ty documented_sem has_variant_attrs implicit_overflow type_dependent_discr discrs_canonical
+  rust_discrs derive_discrs tag_eval canonical parse tokens_of.
